@@ -32,6 +32,7 @@ REVERTS = [  # (name, commit, intended checks, what the fix repaired)
     ('revF28', '780d490', ['C04', 'C02'], 'S_::deepForwardExitGuard'),
     ('revF27', '89ae220', ['C04'], 'orthogonal regions forward guards to all prongs'),
     ('revF33', 'f21e6c7', ['C11'], 'activation assert (nested regions)'),
+    ('revF36', '705492e', ['C11', 'C10'], 'transition targets initialised by the constructor'),
 ]
 MUTANTS = [
     ('m01', 'm01_resume_first.json', ['C02']), ('m02', 'm02_utilize_tie_right.json', ['C12', 'C02']), ('m03', 'm03_exit_no_resumable.json', ['C02']),
@@ -44,7 +45,7 @@ MUTANTS = [
 ]
 # seeded changes: the property they were written for first, then other checks that may notice
 SEED_EXTRA = {'C11-tasklist-clear-keeps-last': ['C19'], 'C15-payload-plan-cyclic-task': ['C06'], 'C08-ortho-active-bits-max': ['C17'], 'C17-ortho-active-bits-max': ['C08'],
-              'C11-bits-clear-extra-byte': ['C18', 'C01'], 'C14-activation-drops-current-transitions': ['C09'], 'C01-report-resumable-wrong-descent': ['C02'],
+              'C11-bits-clear-extra-byte': ['C18', 'C02', 'C03'], 'C13-reenter-resumable-after-active': ['C02'], 'C14-activation-drops-current-transitions': ['C09'], 'C01-report-resumable-wrong-descent': ['C02'],
               'C19-array-emplace-copy-capacity-minus-1': ['C09'], 'C10-copy-drops-requests': ['C11'], 'C12-ortho-report-utilize-as-change': ['C02']}
 
 
